@@ -212,8 +212,8 @@ type wcfg struct {
 	CS           session.CounterStorage
 	MS           session.MessageStorage
 	User, Pass   string
-	MinimalTags  bool // Opts.Tags carries only MsgType and MsgSeqNum (the two the library insists on)
-	SeqReset     bool // the optional SequenceReset builder is configured
+	MinimalTags  bool          // Opts.Tags carries only MsgType and MsgSeqNum (the two the library insists on)
+	SeqReset     bool          // the optional SequenceReset builder is configured
 	LogonTimeout time.Duration // acceptor's LogonSettings.LogonTimeout (default 30 s)
 	// PreSession runs between the construction of the handler and that of the session: what an application
 	// registers on the handler first (a filter, say) runs in front of the session's own hooks
